@@ -158,9 +158,6 @@ func (v *VRRPv2) Payload() []byte {
 
 // decodeVRRP will parse VRRP v2
 func decodeVRRP(data []byte, p gopacket.PacketBuilder) error {
-	if len(data) < 8 {
-		return errors.New("Not a valid VRRP packet. Packet length is too small.")
-	}
 	v := &VRRPv2{}
 	return decodingLayerDecoder(v, data, p)
 }
